@@ -4,35 +4,41 @@ import re
 import vlib
 
 PID = "C16"
-MODS = ["AsmjitVerif.Props.C16", "AsmjitVerif.Props.C16Fields"]
+MODS = ["AsmjitVerif.Props.C16", "AsmjitVerif.Props.C16Fields", "AsmjitVerif.Props.C16RA"]
 MANIFEST = {
     "technique": "Lean 4: non-interference (unwinding) theorems by induction over all operation histories on a hand model of CodeHolder "
-                 "init/reset/reinit/attach/detach + the x86 Assembler/Builder/Compiler event handlers; field-coverage theorems by kernel "
-                 "evaluation over the clang AST of the current sources; C++/Lean correspondence and fresh-vs-recycled differential runs "
-                 "judged by a Lean monitor",
+                 "init/reset/reinit/attach/detach + the x86 and AArch64 Assembler/Builder/Compiler event handlers and code generation; "
+                 "field-coverage theorems by kernel evaluation over the clang AST of the current sources; lifetime theorems for the register "
+                 "allocator's per-function data; C++/Lean correspondence and fresh-vs-recycled differential runs judged by a Lean monitor",
     "text": "(a) From clang's JSON AST of the current sources a translator regenerates, for CodeHolder, Section, the emitter classes, BaseRAPass "
             "and Arena, every data member and every member written on each recycle path (reset+init, reinit, detach+attach, on_reinit, the "
             "allocator's per-function epilogue, Arena::reset); Lean proves by kernel evaluation that each member is re-initialised or is on a "
-            "reviewed keep-list, and that the keep-lists are tight. (b) On a hand-written executable model of the holder and of the four x86 "
-            "emitters (all members, including the ones that are deliberately retained) Lean proves for ALL histories: reset makes the world "
-            "observationally equal to fresh objects, reinit equal to a fresh holder with the same emitters attached in the same order, every "
-            "operation preserves observational equality, hence any program generates the same sections, labels, fixups and relocations after "
-            "any history as on fresh objects, and loggers/validation/retained capacity never reach the output. (c) The model is tied to /repo "
-            "by running harness and compiled model on the same operation lines; the property's monitor compares the implementation's own "
-            "dumps of recycled vs. fresh runs, including real instruction streams and multi-function Compiler programs through the register "
-            "allocator, static vs. dynamic arena memory, logger/validation on vs. off and perturbed heaps, under ASan/UBSan.",
+            "reviewed keep-list, and that the keep-lists are tight. (b) On a hand-written executable model of the holder and of the x86 and "
+            "AArch64 emitters (all members, including the ones that are deliberately retained; labels, fixups, relocations, sections, Builder "
+            "nodes and their serialisation) Lean proves for ALL states and histories: reset makes the world observationally equal to fresh "
+            "objects, reinit forgets everything but environment and attachment, EVERY operation (lifecycle, configuration, code generation) "
+            "preserves observational equality and gives the same answer, hence any program generates the same sections, labels, fixups and "
+            "relocations after a reset/reinit as on fresh objects, and loggers/validation/retained capacity never reach the output. "
+            "(c) For the register allocator's per-function data a lifetime model proves that after run_on_function nothing the Compiler keeps "
+            "points into the pass arena, for any number of functions. (d) The models are tied to /repo by running harness and compiled model on "
+            "the same operation lines; the property's monitor compares the implementation's own dumps of recycled vs. fresh runs and demands "
+            "that no node or virtual register references the pass arena between API calls, including real x86-64 and AArch64 instruction "
+            "streams and multi-function Compiler programs through both register allocators, static vs. dynamic arena memory, logger/validation "
+            "on vs. off and perturbed heaps, under ASan/UBSan.",
     "note": "Proved on the model: holder containers, attachment list, one-shot emitter state, Builder node list and serialisation, labels, "
-            "same-section fixups, embed_label relocations. Only tested (differential, not proved): instruction encoding beyond jmp, the register "
-            "allocator's per-function data, constant pools, AArch64 emitters (structural theorem only), arena block reuse. Trusted: "
-            "tools/ast_fields.py, the harness/driver diff, Spec/Reuse.lean (what counts as output), the reviewed keep-lists in Props/C16Fields.lean.",
+            "same-section fixups (x86 rel8/rel32, AArch64 imm26), embed_label relocations, both emitter families. Hypothesis of reset_sim_fresh "
+            "(emitters not attached at reset time are clean) is not proved as an invariant of histories. Only tested (differential, not proved): "
+            "instruction encoding beyond jmp/b, what the register allocator decides, constant pools, arena block reuse. Trusted: tools/ast_fields.py, "
+            "the harness/driver diff, Spec/Reuse.lean (what counts as output), the reviewed keep-lists in Props/C16Fields.lean.",
 }
 
 EM_KIND = {0: "asm", 1: "asm", 2: "bld", 3: "cmp"}
+AVOID = {"refinalize": False}      # set when the witness below already showed the dead-pass-data defect on this tree
 
-# Open finding C16-K1 (known_findings.json): a second finalize() on a Compiler whose functions were already allocated normally
-# fails with InvalidState, but for this pair of functions the allocator follows a wild RAWorkReg pointer. The generators never
-# re-finalize such a Compiler (it is API misuse, outside the property's quantifier); the witness is replayed on every run.
-REFINALIZE = ["world dynamic", "init x64", "attach 3", "prog 3 func 699332340 34", "finalize 3", "prog 3 func 182628915 10", "finalize 3"]
+# Finding C16-K1 / fixes/C16-2.patch: label nodes keep their RABlock* pass data after the allocator's pass arena is reset, so a
+# second run_passes()/finalize() on the same Compiler follows dead pointers (SEGV, wild RAWorkReg*). With C16-2 the second
+# finalize fails cleanly (LabelAlreadyBound) and no node carries pass data between API calls. The witness is replayed first.
+REFINALIZE = ["world dynamic", "init x64", "attach 3", "prog 3 func 695425564 13", "finalize 3", "finalize 3", "dump"]
 
 
 def generate():
@@ -51,7 +57,8 @@ class Tracker:
     def __init__(self):
         self.world()
 
-    def world(self):
+    def world(self, fam="x86"):
+        self.fam = fam
         self.init = False
         self.arch = "x64"
         self.attached = []
@@ -80,7 +87,7 @@ class Tracker:
         elif k in ("reinit", "reset"):
             self.pending = set()
         if k == "world":
-            self.world()
+            self.world("a64" if "a64" in w[1:] else "x86")
         elif k == "init":
             if not self.init:
                 self.init = True
@@ -100,7 +107,7 @@ class Tracker:
                     self.cursec[i] = 0
         elif k == "attach":
             i = int(w[1])
-            if self.init and i not in self.attached:
+            if self.init and i not in self.attached and ((self.arch == "a64") == (self.fam == "a64")):
                 self.attached.append(i)
                 self.cursec[i] = 0
         elif k == "detach":
@@ -181,7 +188,7 @@ def gen_code_ops(rng, tr, n, modelled=True, allow_err=False):
             emit("cmt %d" % i)
         elif r < 0.91 and kind == "cmp":
             emit(rng.choice(("vreg %d", "jann %d")) % i)
-        elif r < 0.94 and kind != "asm" and not (kind == "cmp" and tr.cc_done):
+        elif r < 0.94 and kind != "asm" and not (AVOID["refinalize"] and kind == "cmp" and tr.cc_done):
             emit("finalize %d" % i)
         elif allow_err and r < 0.97:
             emit("err %d %d" % (i, rng.choice((0, 2)) if modelled else rng.randrange(3)))
@@ -200,7 +207,7 @@ def gen_history(rng, tr, n, modelled=True):
         r = rng.random()
         if not tr.init:
             if r < 0.75:
-                emit("init %s" % rng.choice(("x64", "x64", "x86")))
+                emit("init %s" % (rng.choice(("a64", "a64", "a64", "x64")) if tr.fam == "a64" else rng.choice(("x64", "x64", "x86", "x64", "a64"))))
             elif r < 0.85:
                 emit("attach %d" % rng.randrange(4))          # fails: InvalidArch
             elif r < 0.92:
@@ -228,7 +235,7 @@ def gen_history(rng, tr, n, modelled=True):
             emit("heap %d" % rng.randrange(1 << 20))
         elif not modelled and r < 0.72 and tr.attached:
             i = rng.choice(tr.attached)
-            if EM_KIND[i] == "cmp" and tr.cc_done:
+            if AVOID["refinalize"] and EM_KIND[i] == "cmp" and tr.cc_done:
                 continue
             if EM_KIND[i] == "cmp" and rng.random() < 0.7:
                 emit("prog %d func %d %d" % (i, rng.randrange(1 << 30), rng.randrange(4, 40)))
@@ -245,11 +252,15 @@ def gen_history(rng, tr, n, modelled=True):
 def gen_case(rng, modelled, hist_len):
     """One comparison: (ops of the recycled run, ops of the fresh run); both end with `dump`."""
     tr = Tracker()
-    world_r = "world %s" % rng.choice(("dynamic", "static 4096", "static 64", "static 40000"))
+    fam = "a64" if rng.random() < 0.35 else "x86"
+    fam_w = " a64" if fam == "a64" else ""
+    good_arch = "a64" if fam == "a64" else "x64"
+    world_r = "world %s%s" % (rng.choice(("dynamic", "static 4096", "static 64", "static 40000")), fam_w)
+    tr.apply(world_r)
     hist = gen_history(rng, tr, hist_len, modelled)
     kind = rng.random()
-    if not modelled and tr.init and tr.arch != "x64":
-        kind = 0.5              # `prog` emits x86-64 code: never keep a 32-bit holder through reinit
+    if tr.init and ((tr.arch == "a64") != (fam == "a64") or (not modelled and tr.arch == "x86")):
+        kind = 0.5              # a holder of the other family (nothing can attach) or a 32-bit holder for `prog`: reset, do not reinit
     tail = []
 
     def emit(op):
@@ -263,7 +274,7 @@ def gen_case(rng, modelled, hist_len):
             emit("reset %s" % rng.choice(("soft", "hard")))
         if rng.random() < 0.3:
             emit("heap %d" % rng.randrange(1 << 20))
-        emit("init %s" % (rng.choice(("x64", "x64", "x86")) if modelled else "x64"))
+        emit("init %s" % (good_arch if (fam == "a64" or not modelled) else rng.choice(("x64", "x64", "x86"))))
         order = rng.sample(range(4), rng.randrange(1, 5))
         for i in order:
             emit("attach %d" % i)
@@ -297,7 +308,7 @@ def gen_case(rng, modelled, hist_len):
             if EM_KIND[i] != "asm":
                 prog.append("finalize %d" % i)
     del state
-    fresh_cfg = ["world %s" % rng.choice(("dynamic", "static 4096", "dynamic")), "init %s" % arch]
+    fresh_cfg = ["world %s%s" % (rng.choice(("dynamic", "static 4096", "dynamic")), fam_w), "init %s" % arch]
     if rng.random() < 0.3:
         fresh_cfg.append("hlogger on")
     for i in order:
@@ -382,9 +393,9 @@ def run(res):
     quick = res.tier == "quick"
     broken = []
     res.assumptions += [
-        "one CodeHolder and four x86 emitters per world; AArch64 emitters are covered by the structural theorem only",
+        "one CodeHolder and four emitters (x86 family or AArch64 family) per world",
         "cross-section label references (defect #18, property C03) are kept out of generated programs",
-        "instruction encoding beyond jmp, register allocation and constant pools are outside the Lean model: covered by fresh-vs-recycled "
+        "instruction encoding beyond jmp/b, the register allocator's decisions and constant pools are outside the Lean models: covered by fresh-vs-recycled "
         "differential runs judged by the Lean monitor, not by a theorem",
         "Arena block reuse is abstract in the model (counters only); static vs dynamic arena memory and heap perturbation are differential",
         "ASan cannot see a stale pointer into arena memory that was soft-reset (the blocks stay allocated): such references are covered by the "
@@ -432,6 +443,22 @@ def run(res):
 
     # -- L2b correspondence + L3 monitor ------------------------------------------------------------
     h = vlib.build_harness("c16")
+    # -- dead references after run_passes (C16-K1 / C16-2): replay the witness ----------------------------
+    o, krc, kerr = run_stream([str(h)], REFINALIZE)
+    res.coverage["refinalize_witness"] = "aborts rc=%d" % krc if krc != 0 else "answers %s" % (o[-2:-1] or ["?"])[0]
+    deadref_known = False
+    if krc != 0:
+        first = [l.strip() for l in kerr.splitlines() if "runtime error" in l or "ERROR: AddressSanitizer" in l or l.startswith("SUMMARY")][:2]
+        res.violation("second finalize() on a Compiler that already ran its passes follows dead pass data instead of failing: %s" % " | ".join(first)[:500],
+                      {"ops": REFINALIZE, "stderr": kerr[-2000:]}, True, key="abort:refinalize")
+        deadref_known = True
+    else:
+        v = monitor([(o[-1], o[-1])])[0]
+        if not v.startswith("good"):
+            res.violation("after finalize() the Compiler's nodes still reference the reset pass arena: %s" % v,
+                          {"ops": REFINALIZE, "monitor": v}, True, key="deadref")
+            deadref_known = True
+    AVOID["refinalize"] = deadref_known     # keep the rest of the run alive on such a tree: do not re-finalize, count the verdicts
     n_mod = 500 if quick else 6000
     n_diff = 260 if quick else 3500
     if broken:
@@ -490,6 +517,10 @@ def run(res):
         pairs.append((impl[ra[3] - 1], impl[fa[3] - 1]))
     verdicts = monitor(pairs)
     bad = [ci for ci, v in enumerate(verdicts) if not v.startswith("good")]
+    if deadref_known:
+        dr = [ci for ci in bad if verdicts[ci].startswith("BAD dead reference")]
+        res.coverage["dead_reference_pairs"] = len(dr)
+        bad = [ci for ci in bad if ci not in set(dr)]
 
     # heap-content independence: the same fresh runs in an uninstrumented build under different malloc perturbation bytes
     perturb_bad = []
@@ -510,19 +541,13 @@ def run(res):
             dumps = list(zip(*outs))
             vs = monitor([(d[1], d[0]) for d in dumps] + [(d[2], d[0]) for d in dumps])
             for k, v in enumerate(vs):
+                if v.startswith("BAD dead reference") and deadref_known:
+                    continue
                 if not v.startswith("good"):
                     perturb_bad.append((v, "output differs under MALLOC_PERTURB_ (heap content reaches the output)", sub[k % len(dumps)]))
         res.coverage["heap_perturbation_runs"] = 3 * len(sub)
     except vlib.BuildError:
         raise
-
-    # -- open finding C16-K1: replay the witness -------------------------------------------------------
-    o, krc, kerr = run_stream([str(h)], REFINALIZE)
-    res.coverage["refinalize_witness"] = "aborts rc=%d" % krc if krc != 0 else "answers %s" % (o[-1:] or ["?"])[0]
-    if krc != 0:
-        first = [l for l in kerr.splitlines() if "runtime error" in l or "SUMMARY" in l][:2]
-        res.violation("second finalize() on a Compiler that already ran its passes crashes instead of failing: %s" % " ".join(first)[:400],
-                      {"ops": REFINALIZE, "stderr": kerr[-2000:]}, True, key="abort:refinalize")
 
     # -- coverage ---------------------------------------------------------------------------------
     kinds = {}
